@@ -313,6 +313,24 @@ func ScaledFamilies(big bool) []Scaled {
 		add(fmt.Sprintf("stackdepth-field-%d", n), "def blk { x = 1; eval "+rep("2+(", n-1)+"x"+rep(")", n-1)+" }")
 		add(fmt.Sprintf("stackdepth-type-%d", n), "def blk { print "+rep("\"a\"+(", n-1)+"TYPE"+rep(")", n-1)+" }")
 	}
+	// short-circuit jumps emitted at every code offset around the growth points of the code
+	// buffer (64, 128, 256 ... bytes): each `print 1` is 2 bytes of code
+	growth := map[int]bool{}
+	for n := 0; n <= 140; n++ {
+		growth[n] = true
+	}
+	for _, boundary := range []int{512, 1024, 2048, 4096, 8192} {
+		for n := boundary/2 - 10; n <= boundary/2+2; n++ {
+			growth[n] = true
+		}
+	}
+	for n := 0; n <= 4200; n++ {
+		if !growth[n] {
+			continue
+		}
+		pad := rep("print 1\n", n)
+		add(fmt.Sprintf("growth-%d", n), pad+"print false and 2 + 3 * 4\nprint 0 or 5 + 6 - 7\nprint true and nil or 2 + 2\ndef b { x = nil or 2 + 3; y = 1 and x + 1 }\n")
+	}
 	// block nesting
 	for _, n := range []int{15, 16, 17, 18} {
 		add(fmt.Sprintf("nest-%d", n), rep("def b { ", n)+"x=1"+rep(" }", n))
